@@ -161,8 +161,8 @@ Proof.
       [| subst j; rewrite !byte_len_app; cbn [byte_len]; change (len_utf8 c_lt) with 1; change (len_utf8 c_gt) with 1; lia ].
     cbn [lift rbind].
     destruct (fix_prefix_unescape fx); [|exact I].
-    destruct (unescape_total (fix_dangling fx) (fix_iw fx && iw) pe b') as [u Hu]. rewrite Hu. exact I.
-  - destruct (unescape_total (fix_dangling fx) (fix_iw fx && iw) pe re) as [u Hu]. rewrite Hu. exact I.
+    destruct (unescape_total (fix_esc_table fx) (fix_dangling fx) (fix_iw fx && iw) pe b') as [u Hu]. rewrite Hu. exact I.
+  - destruct (unescape_total (fix_esc_table fx) (fix_dangling fx) (fix_iw fx && iw) pe re) as [u Hu]. rewrite Hu. exact I.
 Qed.
 
 Lemma starts_with_1' : forall c d s, starts_with [c; d] s = true -> exists s', s = c :: s'.
@@ -221,7 +221,7 @@ Section Total.
       rewrite Hl. cbn [lift lbind]. split; [reflexivity|assumption].
     - replace (x ++ c :: y) with (x ++ (c :: y)) by reflexivity.
       rewrite slice_to_app. cbn [lift lbind].
-      destruct (trim_end_unescaped_prefix x) as [re1 [w [Hre1 _]]]. rewrite Hre1. cbn [lift lbind].
+      destruct (trim_end_unescaped_prefix (trim_pred (fix_trim_blank fx)) x) as [re1 [w [Hre1 _]]]. rewrite Hre1. cbn [lift lbind].
       pose proof (parse_start_states_total pe iw fx st (byte_len a) re1) as Hps.
       destruct (parse_start_states pe iw fx st (byte_len a) re1); try contradiction; [|exact I].
       cbn [lbind].
@@ -370,23 +370,51 @@ Section Total.
     destruct (f c); [discriminate|apply IH].
   Qed.
 
-  Lemma declared_names_base : forall base params n sp,
-    In (n, sp) (declared_names base params) -> base <= fst sp.
+  Lemma declared_names_base : forall fb base params n sp,
+    In (n, sp) (declared_names fb base params) -> base <= fst sp.
   Proof.
-    intros base params n sp H. unfold declared_names in H. apply in_map_iff in H.
+    intros fb base params n sp H. unfold declared_names in H. apply in_map_iff in H.
     destruct H as [[o piece] [Heq _]]. inversion Heq; subst. cbn [fst]. lia.
   Qed.
 
-  Lemma declared_names_nonempty : forall base params, declared_names base params <> [].
+  (* the first piece of a text is not empty once a character has been collected *)
+  Lemma split_go_first : forall f s off start cur, cur <> [] ->
+    exists p rest, split_go f s off start cur = (start, p) :: rest /\ p <> [].
   Proof.
-    intros base params H. unfold declared_names in H. apply map_eq_nil in H.
-    unfold split in H. eapply split_go_nonempty. exact H.
+    intros f s. induction s as [|c s IH]; intros off start cur Hc; cbn [split_go].
+    - exists (rev cur), []. split; [reflexivity|]. intros E. apply Hc.
+      rewrite <- (rev_involutive cur), E. reflexivity.
+    - destruct (f c).
+      + exists (rev cur), (split_go f s (off + len_utf8 c) (off + len_utf8 c) []). split; [reflexivity|].
+        intros E. apply Hc. rewrite <- (rev_involutive cur), E. reflexivity.
+      + apply IH. discriminate.
+  Qed.
+
+  (* a parameter text that begins with a character other than white space declares at least one name *)
+  Lemma declared_names_nonempty : forall fb base c params, is_ws c = false ->
+    declared_names fb base (c :: params) <> [].
+  Proof.
+    intros fb base c params Hc H. unfold declared_names in H. apply map_eq_nil in H.
+    unfold split in H. cbn [split_go] in H. rewrite Hc in H.
+    destruct (split_go_first is_ws params (0 + len_utf8 c) 0 [c]) as [p [rest [E Hp]]]; [discriminate|].
+    rewrite E in H. destruct fb; [|discriminate].
+    cbn [filter] in H. unfold nonempty_piece in H. cbn [snd] in H. destruct p; [contradiction|discriminate].
+  Qed.
+
+  Lemma trim_head_not_ws : forall raw c params, trim is_ws raw = c :: params -> is_ws c = false.
+  Proof.
+    intros raw c params H. unfold trim, trim_start in H.
+    destruct (drop_while is_ws raw) as [|d r] eqn:Ed.
+    - unfold trim_end in H. simpl in H. discriminate.
+    - pose proof (drop_while_head _ _ _ _ Ed) as Hd.
+      destruct (trim_end_split is_ws (d :: r)) as [w [Hs _]]. rewrite H in Hs.
+      inversion Hs; subst. exact Hd.
   Qed.
 
   Lemma declare_start_states_total : forall excl a1 p rawr tl st errs,
     src = a1 ++ p ++ rawr ++ tl -> 1 <= byte_len p -> errs_ok errs ->
     tgood (fun x => exists a' r', src = a' ++ r' /\ fst x = byte_len a' /\ byte_len a1 < byte_len a')
-          (declare_start_states src excl (byte_len a1) (byte_len p) (byte_len p + byte_len rawr) st errs).
+          (declare_start_states src fx excl (byte_len a1) (byte_len p) (byte_len p + byte_len rawr) st errs).
   Proof.
     intros excl a1 p rawr tl st errs Hsrc Hp He. unfold declare_start_states.
     assert (Hraw : slice src (byte_len a1 + byte_len p) (byte_len a1 + (byte_len p + byte_len rawr)) = Done rawr).
@@ -394,17 +422,18 @@ Section Total.
       apply slice_app; rewrite byte_len_app; lia. }
     rewrite Hraw. cbn [lift lbind].
     destruct (trim is_ws rawr) as [|c0 params'] eqn:Etrim; [exact I|]. rewrite <- Etrim.
-    pose proof (declared_names_selects src _ _ _ Hraw) as Hsel.
-    set (names := declared_names (byte_len a1 + byte_len p + byte_len (take_while is_ws rawr)) (trim is_ws rawr)) in *.
+    pose proof (declared_names_selects src (fix_decl_blanks fx) _ _ _ Hraw) as Hsel.
+    set (names := declared_names (fix_decl_blanks fx) (byte_len a1 + byte_len p + byte_len (take_while is_ws rawr)) (trim is_ws rawr)) in *.
     pose proof (declare_loop_total excl names st errs He) as Hdl.
     destruct (declare_loop excl names st errs) as [st' errs'|errs' e| |]; try contradiction; [|exact I].
     destruct Hdl as [_ He'].
     destruct (rev names) as [|[n [s0 e0]] rest] eqn:Erev.
-    { exfalso. apply (declared_names_nonempty (byte_len a1 + byte_len p + byte_len (take_while is_ws rawr)) (trim is_ws rawr)).
-      fold names. rewrite <- (rev_involutive names). rewrite Erev. reflexivity. }
+    { exfalso. pose proof (trim_head_not_ws _ _ _ Etrim) as Hc0.
+      apply (declared_names_nonempty (fix_decl_blanks fx) (byte_len a1 + byte_len p + byte_len (take_while is_ws rawr)) c0 params' Hc0).
+      rewrite <- Etrim. fold names. rewrite <- (rev_involutive names). rewrite Erev. reflexivity. }
     assert (Hin : In (n, (s0, e0)) names).
     { apply (proj2 (in_rev names _)). rewrite Erev. left. reflexivity. }
-    pose proof (declared_names_base _ _ _ _ Hin) as Hb. cbn [fst] in Hb.
+    pose proof (declared_names_base _ _ _ _ _ Hin) as Hb. cbn [fst] in Hb.
     rewrite Forall_forall in Hsel. specialize (Hsel _ Hin). unfold selects in Hsel. cbn [fst snd] in Hsel.
     apply slice_inv in Hsel. destruct Hsel as [A [B [HA [Hs0 He0]]]].
     assert (Hsrc' : src = (A ++ n) ++ B) by (rewrite <- app_assoc; exact HA).
@@ -425,7 +454,7 @@ Section Total.
   Lemma parse_declaration_total : forall a1 c0 r1' st errs,
     src = a1 ++ c0 :: r1' -> errs_ok errs ->
     tgood (fun x => exists a' r', src = a' ++ r' /\ fst x = byte_len a' /\ byte_len a1 < byte_len a')
-          (parse_declaration src (byte_len a1) st errs).
+          (parse_declaration src fx (byte_len a1) st errs).
   Proof.
     intros a1 c0 r1' st errs Hsrc He. unfold parse_declaration.
     rewrite (line_len_eq a1 _ Hsrc). cbn [lift lbind].
@@ -467,7 +496,7 @@ Section Total.
 
   Lemma parse_declarations_loop_total : forall fuel a r st errs,
     src = a ++ r -> byte_len r < fuel -> errs_ok errs ->
-    tgood at_boundary (parse_declarations_loop src awc fuel (byte_len a) st errs).
+    tgood at_boundary (parse_declarations_loop src awc fx fuel (byte_len a) st errs).
   Proof.
     induction fuel as [|fuel IH]; intros a r st errs Hsrc Hf Herrs; [lia|].
     cbn [parse_declarations_loop].
@@ -515,7 +544,7 @@ Section Total.
         split; [rewrite <- app_assoc; rewrite take_drop_while; exact Hsrc2|].
         cbn [fst]. rewrite !byte_len_app. lia.
       + pose proof (parse_declaration_total a1 c r1' st errs Hsrc1 Herrs) as Hpd.
-        destruct (parse_declaration src (byte_len a1) st errs) as [[k st'] errs'|errs' e| |];
+        destruct (parse_declaration src fx (byte_len a1) st errs) as [[k st'] errs'|errs' e| |];
           try contradiction; [|exact I].
         destruct Hpd as [[a' [r' [Hs' [Hk Hlt]]]] He']. cbn [fst] in Hk. subst k.
         apply (IH a' r' st' errs' Hs'); [|assumption].
@@ -538,7 +567,7 @@ Section Total.
     { intros x y H. unfold fuel_for. rewrite H at 1. rewrite byte_len_app. lia. }
     pose proof (parse_declarations_loop_total (fuel_for src) a1 r1 initial_state [] Hsrc1 (Hfuel _ _ Hsrc1)
                   (Forall_nil _)) as Hd.
-    destruct (parse_declarations_loop src awc (fuel_for src) (byte_len a1) initial_state [])
+    destruct (parse_declarations_loop src awc fx (fuel_for src) (byte_len a1) initial_state [])
       as [[i st] errs|errs e| |]; try contradiction; [|eauto].
     destruct Hd as [[a2 [r2 [Hsrc2 Hi]]] He]. cbn [fst] in Hi. subst i.
     pose proof (parse_rules_total (fuel_for src) a2 r2 st errs Hsrc2 (Hfuel _ _ Hsrc2) He) as Hr.
